@@ -101,6 +101,7 @@ def main():
         for l in open(out):
             f = l.rstrip('\n').split('\t')
             if len(f) > 5 and f[5] == 'NOT-KILLED-BY-CHECK': todo.append(f)
+            if len(f) > 5 and f[5] == 'SURVIVOR' and os.environ.get('RECHECK_SURVIVORS'): todo.append(f)
         try:
             with open(out, 'a') as log:
                 for f in todo:
@@ -108,7 +109,8 @@ def main():
                     funcs = dict(TARGETS[prop][1])[file]
                     sh(f'git -C {wt} checkout -q -- . ; git -C {wt} clean -fdq')
                     sh(f'/verif/bin/vmutate -file {wt}/{file} -funcs "{funcs}" -apply {n} -out {wt}/{file}')
-                    for c in RELATED.get(prop, []):
+                    own = [prop] if os.environ.get('RECHECK_SURVIVORS') else []
+                    for c in own + RELATED.get(prop, []):
                         env = dict(ENV, VERIF_REPO=wt, VERIF_OUT=mx + '/out')
                         rc, o = sh(f'/verif/bin/check {c} quick', env=env, timeout=1500)
                         if rc == 1 and 'VIOLATION' in o:
